@@ -80,7 +80,9 @@ def gen_cases(sh):
     elif src == 'c05':
         sp_ = c05.space(tier, seed)
         maxrows = 3 if tier == 'thorough' else 2
-        tabs = {'plain': list(qcheck.tables_upto(sp_['rows'], maxrows)) + [qcheck.long_table(sp_['rows'], 2)],
+        w6 = [['c%d' % i for i in range(1, 7)], ['d%d' % i for i in range(1, 7)], ['e%d' % i for i in range(1, 12)], ['f%d' % i for i in range(1, 6)]]
+        tabs = {'wide': list(qcheck.tables_upto(w6, 2)) + [w6 * 3],
+                'plain': list(qcheck.tables_upto(sp_['rows'], maxrows)) + [qcheck.long_table(sp_['rows'], 2)],
                 'named': list(qcheck.tables_upto(sp_['nrows'], maxrows + 1)) + [qcheck.long_table(sp_['nrows'], 3)],
                 'join': list(qcheck.tables_upto(sp_['jrows'], maxrows)) + [qcheck.long_table(sp_['jrows'][:4], 2)]}
         for kind, q in sp_['qs'][lo:hi]:
